@@ -44,7 +44,8 @@ def check_grad(op, case, rec, f64_tol=1e-5, f32_tol=2e-3):
 
     which = [i for i, r in enumerate(rg) if r]
     try:
-        want = fd.fd_vjp(f, ops.arrays(case), g, which)
+        sc = float(case.get("scale", 1.0))
+        want = fd.fd_vjp(f, ops.arrays(case), g, which, hscale=sc)
     except fd.FwdDtype:
         rec.skip = "fwd_not_float64"
         return
@@ -59,7 +60,10 @@ def check_grad(op, case, rec, f64_tol=1e-5, f32_tol=2e-3):
         if tuple(gt.shape) != tuple(ts[i].shape):
             raise Violation("grad_shape", f"operand {i}: grad shape {tuple(gt.shape)} != operand shape "
                                           f"{tuple(ts[i].shape)}; {ctx}")
-        ok, err, scale = fd.close(gt.data, want[i], dt, f64_tol, f32_tol)
+        # the comparison floor follows the case's magnitude: |d<g,f>/dx| ~ |g||f|/|x|
+        # (only for the extreme scales, which are generated for cancellation-free ops only)
+        floor = 1.0 if 1e-3 < sc < 1e3 else min(1.0, float(np.abs(want[i]).max()) or 1.0)
+        ok, err, scale = fd.close(gt.data, want[i], dt, f64_tol, f32_tol, floor=floor)
         if not ok:
             raise Violation("grad_value",
                             f"operand {i}: max |grad - finite-difference VJP| = {err:.3e} (scale {scale:.3g}); "
